@@ -168,6 +168,17 @@ def run_long(shard, ctx) -> None:
                 ctx.violation("C17:no-reconnect-after-failure", f"{n_fail} consecutive failures: only {n_attempts} attempts within {horizon:.0f} virtual seconds ({len(outcomes) + 1} expected)", case)
             ctx.count("long_failure_run_scenarios")
             ctx.case(f"long{n_fail}{tail}", True)
+    # an attempt that ends in asyncio.CancelledError without the manager (or close()) having caused it is a failed attempt like any other
+    for word in (["self_cancel", "ok"], ["ok", "slow_self_cancel", "ok"], ["fail", "self_cancel", "fail", "ok"]):
+        lifetimes = [4.0 if o.endswith("ok") else None for o in word]
+        res = vloop.run_scenario(word, lifetimes, horizon=300.0, default_outcome="ok", default_lifetime=None)
+        case = {"word": word, "mode": "self_cancelled_attempt", "close_at": None, "lifetimes": lifetimes, "horizon": 300.0}
+        judge(dict(res, events=[e for e in res["events"]]), ctx, case, False)
+        n_attempts = sum(1 for e in res["events"] if e[2] == "attempt_start")
+        if n_attempts < len(word) + 1:
+            ctx.violation("C17:no-reconnect-after-failure", f"an attempt ended in CancelledError that the manager did not cause: only {n_attempts} attempts for {len(word)} scripted ones + the final one", case)
+        ctx.count("self_cancelled_attempt_scenarios")
+        ctx.case(f"selfcancel{word}", True)
     for word in (["ok", "ok", "ok"], ["ok", "fail", "ok", "ok"], ["slow_ok", "ok", "fail", "fail", "ok"]):
         lifetimes = [3.0 if o.endswith("ok") else None for o in word]
         res = vloop.run_scenario(word, lifetimes, horizon=300.0, default_outcome="ok", default_lifetime=None, close_raises_after_loss=True)
@@ -256,7 +267,7 @@ def run(shard, ctx):
 
 
 def replay(case, ctx):
-    if case.get("mode") in ("long_failure_run", "close_raises_after_loss"):
+    if case.get("mode") in ("long_failure_run", "close_raises_after_loss", "self_cancelled_attempt"):
         res = vloop.run_scenario(case["word"], case["lifetimes"], horizon=case["horizon"], default_outcome="ok", default_lifetime=None,
                                  close_raises_after_loss=case["mode"] == "close_raises_after_loss")
         judge(res, ctx, case, False)
